@@ -13,6 +13,7 @@
 package main
 
 import (
+	"bytes"
 	"errors"
 	"os"
 	"sort"
@@ -88,6 +89,42 @@ type world struct {
 	at       string      // "" = no bump in flight, else the call it is parked at
 	failCall string      // main-goroutine fault injection: this call fails once
 	failHit  bool
+
+	dbFault    string // "" | err | close : fault for the next slashing-record write at database level
+	dbFaultHit bool
+	closed     bool
+}
+
+// faultDB forwards everything to the real on-disk Badger database. When armed it makes the next WRITE of a
+// slashing record (the single storage write of a sign request) fail in one of two realistic ways:
+//
+//	err   : the write returns an error without touching the database
+//	close : the real database is CLOSED just before the write (a shutdown landing between the request's slashing
+//	        check and its record update); the write is then delegated to the closed database
+type faultDB struct {
+	basedb.Database
+	w *world
+}
+
+func (d *faultDB) Set(prefix, key, value []byte) error {
+	if d.w.dbFault != "" && (bytes.Contains(prefix, []byte("highest_att-")) || bytes.Contains(prefix, []byte("highest_prop-"))) {
+		mode := d.w.dbFault
+		d.w.dbFault = ""
+		d.w.dbFaultHit = true
+		if mode == "err" {
+			return errFault
+		}
+		_ = d.Database.Close()
+		d.w.closed = true
+	}
+	return d.Database.Set(prefix, key, value)
+}
+
+func (d *faultDB) Using(rw basedb.ReadWriter) basedb.ReadWriter {
+	if rw == nil {
+		return d
+	}
+	return rw
 }
 
 func (w *world) hook(call string) error {
@@ -109,8 +146,9 @@ func (w *world) open() {
 		panic(err)
 	}
 	w.db = db
+	w.closed = false
 	nc := networkconfig.NetworkConfig{Beacon: w.net, Domain: networkconfig.TestNetwork.Domain}
-	km, err := ekm.NewETHKeyManagerSigner(w.logger, db, nc, true, "")
+	km, err := ekm.NewETHKeyManagerSigner(w.logger, &faultDB{Database: db, w: w}, nc, true, "")
 	if err != nil {
 		panic(err)
 	}
@@ -149,8 +187,10 @@ func (w *world) abortBump() {
 
 func (w *world) restart() {
 	w.abortBump()
-	if err := w.db.Close(); err != nil {
-		panic(err)
+	if !w.closed {
+		if err := w.db.Close(); err != nil {
+			panic(err)
+		}
 	}
 	w.open()
 }
@@ -551,7 +591,8 @@ func (h *H) doOp(line string) {
 		}
 		run.Seen(hx.Sprintf("%s:%s:%s:stale=%v", ws[0], at, res, stale))
 		h.emit(line, res+" "+w.readback(sh))
-	case "satt":
+	case "satt", "sattf":
+		mode := kvStr(ws, "mode")
 		s, _ := kvOf(ws, "s")
 		t, _ := kvOf(ws, "t")
 		h.salt++
@@ -561,17 +602,36 @@ func (h *H) doOp(line string) {
 		if err := w.km.(spectypes.BeaconSigner).IsAttestationSlashable(sh.pk, att); err != nil {
 			chk = refuseTag(err)
 		}
+		if ws[0] == "sattf" {
+			w.dbFault, w.dbFaultHit = mode, false
+		}
 		sig, _, err := w.km.SignBeaconObject(att, phase0.Domain{}, sh.pk, spectypes.DomainAttester)
+		w.dbFault = ""
 		out := "signed"
 		if err != nil {
 			out = "refused:" + refuseTag(err)
+			if w.dbFaultHit {
+				out = "refused:writeFailed"
+			}
 		} else if len(sig) == 0 {
 			out = "empty-signature"
 		}
+		if ws[0] == "sattf" && mode == "close" {
+			w.restart() // reopen the same database (the process that was shutting down is gone)
+			cs.bumpK = -1
+		}
+		if ws[0] == "sattf" {
+			run.Seen(hx.Sprintf("sattf:%s:hit=%v:%s", mode, w.dbFaultHit, out))
+		}
+		w.dbFaultHit = false
 		wf := s < t && t <= h.epoch()
 		if err == nil {
 			if !hasA {
 				h.violate("C04/signed-with-missing-attestation-record", hx.Sprintf("attestation (%d,%d) signed while no highest-attestation record existed", s, t))
+			}
+			// a released signature must stand on a persisted record (read back, after the reopen where there was one)
+			if _, hs1, ht1, _, _ := w.records(sh); hs1 < s || ht1 < t {
+				h.violate("C04/signature-released-without-persisted-mark", hx.Sprintf("attestation (%d,%d) was released but the stored highest attestation is (%d,%d)", s, t, hs1, ht1))
 			}
 			na := relAtt{s, t, len(cs.lines)}
 			for _, o := range sh.atts {
@@ -588,7 +648,8 @@ func (h *H) doOp(line string) {
 		run.Seen(hx.Sprintf("satt:%s:wf=%v:%s:chk=%s", cls, wf, out, chk))
 		run.Tag("satt:" + out)
 		h.emit(line, out+" chk="+chk+" "+w.readback(sh))
-	case "sblk":
+	case "sblk", "sblkf":
+		mode := kvStr(ws, "mode")
 		slot, _ := kvOf(ws, "slot")
 		kind := kvStr(ws, "kind")
 		h.salt++
@@ -603,16 +664,34 @@ func (h *H) doOp(line string) {
 		if err := w.km.(spectypes.BeaconSigner).IsBeaconBlockSlashable(sh.pk, phase0.Slot(slot)); err != nil {
 			chk = refuseTag(err)
 		}
+		if ws[0] == "sblkf" {
+			w.dbFault, w.dbFaultHit = mode, false
+		}
 		sig, _, err := w.km.SignBeaconObject(obj, phase0.Domain{}, sh.pk, spectypes.DomainProposer)
+		w.dbFault = ""
 		out := "signed"
 		if err != nil {
 			out = "refused:" + refuseTag(err)
+			if w.dbFaultHit {
+				out = "refused:writeFailed"
+			}
 		} else if len(sig) == 0 {
 			out = "empty-signature"
 		}
+		if ws[0] == "sblkf" && mode == "close" {
+			w.restart()
+			cs.bumpK = -1
+		}
+		if ws[0] == "sblkf" {
+			run.Seen(hx.Sprintf("sblkf:%s:hit=%v:%s", mode, w.dbFaultHit, out))
+		}
+		w.dbFaultHit = false
 		if err == nil {
 			if !hasP {
 				h.violate("C04/signed-with-missing-proposal-record", hx.Sprintf("block at slot %d signed while no highest-proposal record existed", slot))
+			}
+			if _, _, _, _, hp1 := w.records(sh); hp1 < slot {
+				h.violate("C04/signature-released-without-persisted-mark", hx.Sprintf("block at slot %d was released but the stored highest proposal is %d", slot, hp1))
 			}
 			nb := relBlk{slot, len(cs.lines)}
 			for _, o := range sh.blocks {
@@ -631,6 +710,8 @@ func (h *H) doOp(line string) {
 		h.emit(line, out+" chk="+chk+" "+w.readback(sh))
 	case "conc":
 		h.doConc(line, ws, sh)
+	case "xconc":
+		h.doXconc(line, ws, sh)
 	default:
 		panic("unknown op: " + line)
 	}
@@ -752,6 +833,161 @@ func (h *H) doConc(line string, ws []string, sh *share) {
 	h.emit(line+" got="+string(got), "lin "+h.w.readback(sh))
 }
 
+// doXconc: share k keeps requesting attestations / blocks that its OWN stored records refuse (same target with another
+// root or source, lower source, already signed slot) while one goroutine per OTHER share hammers the read-only
+// pre-checks IsAttestationSlashable / IsBeaconBlockSlashable of that share (what runners do during consensus).
+// Every request must be refused, so the op changes nothing (the model runs each listed request once). Oracle:
+// pairwise slashability of everything released for the share. Requests run under a timeout (a hang is an observation).
+func (h *H) doXconc(line string, ws []string, sh *share) {
+	w, cs := h.w, h.cs
+	n, _ := kvOf(ws, "n")
+	var reqs []relAtt
+	if rs := kvStr(ws, "reqs"); rs != "" && rs != "-" {
+		for _, rq := range strings.Split(rs, ";") {
+			p := strings.Split(rq, ":")
+			s, _ := strconv.ParseUint(p[0], 10, 64)
+			t, _ := strconv.ParseUint(p[1], 10, 64)
+			reqs = append(reqs, relAtt{s: s, t: t})
+		}
+	}
+	var slots []uint64
+	if ss := kvStr(ws, "slots"); ss != "" && ss != "-" {
+		for _, x := range strings.Split(ss, ";") {
+			v, _ := strconv.ParseUint(x, 10, 64)
+			slots = append(slots, v)
+		}
+	}
+	var stop atomic.Bool
+	done := make(chan struct{}, len(cs.shares))
+	others := 0
+	clock, epoch := h.clock(), h.epoch()
+	for _, o := range cs.shares {
+		if o == sh {
+			continue
+		}
+		others++
+		go func(pk []byte) {
+			probe := mkAtt(clock, epoch, epoch+1, 7)
+			bs := w.km.(spectypes.BeaconSigner)
+			for !stop.Load() {
+				_ = bs.IsAttestationSlashable(pk, probe)
+				_ = bs.IsBeaconBlockSlashable(pk, phase0.Slot(clock+1))
+			}
+			done <- struct{}{}
+		}(o.pk)
+	}
+	hung := false
+	released := 0
+	type res struct{ ok bool }
+	call := func(f func() error) (ok, hang bool) {
+		ch := make(chan error, 1)
+		go func() { ch <- f() }()
+		select {
+		case err := <-ch:
+			return err == nil, false
+		case <-time.After(5 * time.Second):
+			return false, true
+		}
+	}
+	total := len(reqs) + len(slots)
+	for i := 0; i < int(n) && total > 0 && !hung; i++ {
+		j := i % total
+		h.salt++
+		if j < len(reqs) {
+			rq := reqs[j]
+			att := mkAtt(clock, rq.s, rq.t, h.salt)
+			ok, hang := call(func() error {
+				_, _, err := w.km.SignBeaconObject(att, phase0.Domain{}, sh.pk, spectypes.DomainAttester)
+				return err
+			})
+			hung = hang
+			if ok {
+				released++
+				na := relAtt{rq.s, rq.t, len(cs.lines)}
+				for _, o := range sh.atts {
+					if k := slashKind(o, na); k != "" {
+						h.violate("C04/slashable-pair/"+k+":concurrent-other-share", hx.Sprintf("attestations (%d,%d) and (%d,%d) both signed for one share; the second while other shares were being pre-checked concurrently (attempt %d)", o.s, o.t, na.s, na.t, i))
+					}
+				}
+				sh.atts = append(sh.atts, na)
+			}
+		} else {
+			slot := slots[j-len(reqs)]
+			var obj ssz.HashRoot = mkBlock(slot, h.salt)
+			if i%2 == 1 {
+				obj = mkBlinded(slot, h.salt)
+			}
+			ok, hang := call(func() error {
+				_, _, err := w.km.SignBeaconObject(obj, phase0.Domain{}, sh.pk, spectypes.DomainProposer)
+				return err
+			})
+			hung = hang
+			if ok {
+				released++
+				for _, o := range sh.blocks {
+					if o.slot == slot {
+						h.violate("C04/slashable-pair/double-proposal:concurrent-other-share", hx.Sprintf("two blocks signed for slot %d for one share; the second while other shares were being pre-checked concurrently (attempt %d)", slot, i))
+					}
+				}
+				sh.blocks = append(sh.blocks, relBlk{slot, len(cs.lines)})
+			}
+		}
+	}
+	stop.Store(true)
+	if hung {
+		h.run.Tag("xconc:hang")
+		h.hangs++
+		old := h.w
+		h.w = newWorld()
+		h.w.net.slot.Store(old.net.slot.Load())
+		_ = old.db.Close()
+		old.destroy(false)
+		h.cs = nil
+		return
+	}
+	for i := 0; i < others; i++ {
+		<-done
+	}
+	h.run.Tag(hx.Sprintf("xconc:released=%d", hx.Min(released, 2)))
+	h.run.Seen(hx.Sprintf("xconc:others=%d:reqs=%d:slots=%d:released=%v", others, hx.Min(len(reqs), 3), hx.Min(len(slots), 2), released > 0))
+	h.emit(line, "ok "+w.readback(sh))
+}
+
+// genXconcCase: >= 3 shares with DIFFERENT records: the others keep the record of their registration, share 0 signs
+// an attestation and a block above it; then share 0 is asked for conflicting objects while the others are pre-checked.
+func (h *H) genXconcCase() {
+	r := h.rng
+	nsh := 3 + r.Intn(3)
+	c0 := uint64(2+r.Intn(40))*h.spe + uint64(r.Intn(int(h.spe)))
+	h.doOp(hx.Sprintf("reset kind=wf shares=%d clock=%d spe=%d ffe=%d ffs=%d", nsh, c0, h.spe, smallEpoch, smallSlot))
+	for k := 0; k < nsh; k++ {
+		h.doOp(hx.Sprintf("add k=%d", k))
+	}
+	h.doOp(hx.Sprintf("tick dt=%d", int(h.spe)*(2+r.Intn(2))))
+	e := h.epoch()
+	s0 := e - 1 - uint64(r.Intn(2))
+	h.doOp(hx.Sprintf("satt k=0 s=%d t=%d", s0, e))
+	h.doOp(hx.Sprintf("sblk k=0 slot=%d kind=full", h.clock()))
+	blk := h.clock()
+	if r.Chance(50) {
+		h.doOp(hx.Sprintf("tick dt=%d", int(h.spe)))
+	}
+	e2 := h.epoch()
+	// all refused by share 0's own record (s0,e) / blk, all accepted by the others' older records
+	reqs := []string{hx.Sprintf("%d:%d", s0, e)}
+	if s0 > 0 {
+		reqs = append(reqs, hx.Sprintf("%d:%d", s0-1, e)) // same target, other source
+	}
+	if e2 > e && s0 > 0 {
+		reqs = append(reqs, hx.Sprintf("%d:%d", s0-1, e2)) // would surround (s0,e)
+	}
+	h.doOp(hx.Sprintf("xconc k=0 n=%d reqs=%s slots=%d", 400+r.Intn(300), strings.Join(reqs, ";"), blk))
+	if h.cs != nil {
+		h.doOp(hx.Sprintf("satt k=1 s=%d t=%d", e2-1, e2))
+		h.run.Tag("case:xconc")
+	}
+}
+
 // ---------------------------------------------------------------- generator
 
 func (h *H) genCase(idx int) {
@@ -850,6 +1086,10 @@ func (h *H) genCase(idx int) {
 			if h.cs.kind != "malformed" && !(s < t && t <= e) {
 				continue
 			}
+			if r.Chance(7) {
+				h.doOp(hx.Sprintf("sattf k=%d s=%d t=%d mode=%s", k, s, t, map[bool]string{true: "close", false: "err"}[r.Chance(45)]))
+				continue
+			}
 			h.doOp(hx.Sprintf("satt k=%d s=%d t=%d", k, s, t))
 		default:
 			var slot uint64
@@ -878,7 +1118,12 @@ func (h *H) genCase(idx int) {
 			if h.cs.kind != "malformed" && slot > c {
 				slot = c
 			}
-			h.doOp(hx.Sprintf("sblk k=%d slot=%d kind=%s", k, slot, map[bool]string{true: "blind", false: "full"}[r.Chance(35)]))
+			bk := map[bool]string{true: "blind", false: "full"}[r.Chance(35)]
+			if r.Chance(7) {
+				h.doOp(hx.Sprintf("sblkf k=%d slot=%d kind=%s mode=%s", k, slot, bk, map[bool]string{true: "close", false: "err"}[r.Chance(45)]))
+				continue
+			}
+			h.doOp(hx.Sprintf("sblk k=%d slot=%d kind=%s", k, slot, bk))
 		}
 	}
 	if h.cs != nil {
@@ -1002,6 +1247,10 @@ func main() {
 	}
 	// quick tier: n = number of histories
 	for i := 0; i < run.N; i++ {
+		if i%6 == 5 && h.hangs < maxHangs {
+			h.genXconcCase()
+			continue
+		}
 		h.genCase(i)
 		if i%25 == 24 {
 			h.doMaintenance()
